@@ -313,6 +313,8 @@ struct VecTarget
         SA.junk_fill = p.knob("alloc_junk", 1) != 0;
         SA.reuse_lifo = p.knob("alloc_reuse", 0) != 0;
         SA.junk_seed = (unsigned char)p.knob("junk_seed", 0x5b);
+        SA.passthrough = p.knob("alloc_default", 0) != 0;
+        if (SA.passthrough) c.st.add("probe.default_allocator_a_alloc_");
         SA.classify = [this](void *addr, size_t) -> char const * {
             char const *s = g_shared->site;
             if (strstr(s, "_new")) return is_buf ? "buf_header" : "vec_header";
@@ -551,6 +553,8 @@ struct VecTarget
                 if (idx >= cap) { if (p) { c.fail("out-of-range-access-returned-pointer", nm("at").c_str(), "index %zu >= capacity %zu returned a pointer", idx, cap); } c.st.add("probe.access_out_of_range"); break; }
                 if (!p || !SA.owns(p, x.z)) { c.fail("returned-pointer-outside-storage", nm("at").c_str(), "index %zu < capacity %zu: pointer missing or outside owned storage", idx, cap); break; }
                 if (idx < len && memcmp(p, x.M[idx].data(), x.z) != 0) c.fail("access-wrong-element", nm("at").c_str(), "element %zu differs from the model", idx);
+                void *q = is_buf ? a_buf_at_(x.b, idx) : a_vec_at_(x.v, idx); // unchecked form, valid for idx < capacity
+                if (c.ok() && q != p) c.fail("access-wrong-element", nm("at_").c_str(), "unchecked and checked accessors disagree for index %zu", idx);
             }
             else if (how == 1)
             {
@@ -573,6 +577,9 @@ struct VecTarget
                 void *p = is_buf ? a_buf_top(x.b) : a_vec_top(x.v);
                 if (!len) { if (p) c.fail("out-of-range-access-returned-pointer", nm("top").c_str(), "top of an empty sequence is not NULL"); break; }
                 if (!p || !SA.owns(p, x.z) || memcmp(p, x.M.back().data(), x.z) != 0) c.fail("access-wrong-element", nm("top").c_str(), "top is not the last element");
+                void *q = is_buf ? a_buf_top_(x.b) : a_vec_top_(x.v);
+                if (c.ok() && q != p) c.fail("access-wrong-element", nm("top_").c_str(), "unchecked and checked top disagree");
+                if (c.ok() && !is_buf && a_vec_end_(x.v) != a_vec_end(x.v)) c.fail("access-wrong-element", "a_vec_end_", "unchecked and checked end disagree");
             }
             else
             {
@@ -640,6 +647,7 @@ static inline void gen_vec_plan(Rng &r, Plan &p, bool is_buf, bool for_faults, i
     p.set("target", is_buf ? 1 : 0);
     p.set("alloc_move", r.chance(1, 2)); p.set("alloc_junk", r.chance(3, 4)); p.set("alloc_reuse", r.chance(1, 4));
     p.set("junk_seed", (int64_t)r.below(256));
+    p.set("alloc_default", r.chance(1, 6));
     static const int64_t KS[] = {1, 2, 4, 16, 64, 1000};
     p.set("keyspace", r.pick(KS));
     static const int64_t ML[] = {4, 8, 16, 48, 120};
